@@ -59,7 +59,7 @@ Definition limit_after (auth : string) (l : Z) (o : op) : Z :=
 Lemma step_limit cfg e w o :
   pass_limit (w_o (fst (step cfg e w o))) = limit_after (cfg_authority cfg) (pass_limit (w_o w)) o.
 Proof.
-  destruct o as [p tape lie|signer m tape|to d a|q| | | |p2 tape2 lie2 k2]; cbn [step fst limit_after]; try reflexivity.
+  destruct o as [p tape lie|signer m tape|to d a|sf st sd sa|q| | | |p2 tape2 lie2 k2]; cbn [step fst limit_after]; try reflexivity.
   - pose proof (recv_controls cfg e w p tape lie) as H. unfold controls in H. inversion H as [[H1 H2 H3 Hm]].
     unfold pass_limit. rewrite Hm. reflexivity.
   - destruct (step_msg cfg w signer m tape) as [w' x] eqn:E. cbn [fst].
@@ -80,6 +80,7 @@ Proof.
     + rewrite msg_update_params in E. destruct (String.eqb signer (cfg_authority cfg)); inversion E; subst; reflexivity.
     + apply step_msg_ok_inv in E as (_ & o' & s & Hb & -> & _). cbn [handle_body] in Hb.
       destruct (negb (existsb _ _)); [discriminate|]. apply mbind_ok in Hb as (u & s1 & _ & H2). inversion H2; subst. reflexivity.
+  - destruct (_ || _ || _); reflexivity.
 Qed.
 
 (* after any history, the limit in force is the value most recently set by the authority, or the
